@@ -481,6 +481,7 @@ func takePenalty(currentDB *state.StateDB, val *state.Validator, penaltyAmount *
 			if rest != nil && rest.Sign() > 0 {
 				setActual(d.Token, rest, fromDeposit)
 				if fromDeposit.Sign() > 0 {
+					d = d.DeepCopy() // the object is shared with the old record kept in the journal
 					updateCounter(fromDeposit, newVal, d.Token, d.Stake)
 					updatedDFrom = append(updatedDFrom, d) //cache
 					pRecords = append(pRecords, &PenaltyRecord{
